@@ -24,7 +24,9 @@
 EXTENDS Integers, Sequences, FiniteSets, TLC
 
 CONSTANTS Cap,      \* channel capacity (4 in the code)
-          Sizes,    \* menu of write / read sizes
+          WSizes,   \* menu of Write sizes (incl. size classes around 64 KiB and "larger than anything
+                    \* the channel could hold in pieces": a Write is ONE buffer whatever its size)
+          RSizes,   \* menu of Read sizes
           MaxOps,   \* bound on completed calls
           Atomic    \* TRUE: no call of the other end starts while a Read is in progress
 
@@ -41,9 +43,10 @@ VARIABLES
   closed,  \* stopCh closed
   rd,      \* rd[e]: the Read call in progress at end e
   nops,    \* completed calls
+  acked,   \* acked[e]: sum of the n returned by end e's Write calls (history)
   last     \* the call completed by the last step: what the caller observes
 
-vars == <<q, bb, wpos, rpos, closed, rd, nops, last>>
+vars == <<q, bb, wpos, rpos, closed, rd, nops, acked, last>>
 
 Min(a, b) == IF a <= b THEN a ELSE b
 
@@ -53,7 +56,7 @@ Init ==
   /\ wpos = [e \in Ends |-> 0] /\ rpos = [e \in Ends |-> 0]
   /\ closed = FALSE
   /\ rd = [e \in Ends |-> NoRead]
-  /\ nops = 0 /\ last = NoOp
+  /\ nops = 0 /\ last = NoOp /\ acked = [e \in Ends |-> 0]
 
 MayStart(e) ==
   /\ nops < MaxOps
@@ -69,22 +72,23 @@ Write(e, n, dl) ==
   /\ MayStart(e)
   /\ IF closed THEN
        /\ Done("w", e, n, dl, 0, {"closed"}, wpos[e])
-       /\ UNCHANGED <<q, wpos>>
+       /\ UNCHANGED <<q, wpos, acked>>
      ELSE IF Len(q[e]) < Cap THEN
        /\ q' = [q EXCEPT ![e] = Append(@, [from |-> wpos[e], len |-> n])]
        /\ wpos' = [wpos EXCEPT ![e] = @ + n]
+       /\ acked' = [acked EXCEPT ![e] = @ + n]
        /\ Done("w", e, n, dl, n, {""}, wpos[e])
      ELSE
        /\ dl                         \* full: waits unless the write deadline fires; nothing is queued
        /\ Done("w", e, n, dl, 0, {"timeout"}, wpos[e])
-       /\ UNCHANGED <<q, wpos>>
+       /\ UNCHANGED <<q, wpos, acked>>
   /\ UNCHANGED <<bb, rpos, closed, rd>>
 
 \* pipeConn.Read(p), len(p) = k
 ReadBegin(e, k, dl) ==
   /\ MayStart(e)
   /\ rd' = [rd EXCEPT ![e] = [on |-> TRUE, k |-> k, n |-> 0, first |-> TRUE, dl |-> dl, arg |-> k, from |-> 0]]
-  /\ UNCHANGED <<q, bb, wpos, rpos, closed, nops, last>>
+  /\ UNCHANGED <<q, bb, wpos, rpos, closed, nops, acked, last>>
 
 ReadReturn(e, errs) ==
   /\ Done("r", e, rd[e].arg, rd[e].dl, rd[e].n, errs, rd[e].from)
@@ -117,17 +121,18 @@ ReadStep(e) ==
        /\ closed \/ r.dl                               \* ... until Close or DeadlineFire
        /\ ReadReturn(e, (IF closed THEN {"eof"} ELSE {}) \cup (IF r.dl THEN {"timeout"} ELSE {}))
        /\ UNCHANGED <<q, bb, rpos>>
-  /\ UNCHANGED <<wpos, closed>>
+  /\ UNCHANGED <<wpos, closed, acked>>
 
 \* PipeConns.Close / Conn1().Close / Conn2().Close
 Close(e) ==
   /\ MayStart(e)
   /\ closed' = TRUE
   /\ Done("c", e, 0, FALSE, 0, {""}, 0)
-  /\ UNCHANGED <<q, bb, wpos, rpos, rd>>
+  /\ UNCHANGED <<q, bb, wpos, rpos, rd, acked>>
 
 Next ==
-  \/ \E e \in Ends, n \in Sizes, dl \in BOOLEAN : Write(e, n, dl) \/ ReadBegin(e, n, dl)
+  \/ \E e \in Ends, n \in WSizes, dl \in BOOLEAN : Write(e, n, dl)
+  \/ \E e \in Ends, k \in RSizes, dl \in BOOLEAN : ReadBegin(e, k, dl)
   \/ \E e \in Ends : ReadStep(e) \/ Close(e)
 
 Spec == Init /\ [][Next]_vars
@@ -161,6 +166,9 @@ ReadShape == last.op = "r" => (last.n > 0 => last.errs = {""}) /\ last.n <= last
 \* Write after Close fails and queues nothing
 WriteAfterCloseFails == (last.op = "w" /\ closed) => (last.errs = {"closed"} /\ last.n = 0)
 WriteShape == last.op = "w" => (last.n = last.arg /\ last.errs = {""}) \/ (last.n = 0 /\ last.errs # {""})
+\* the Write contract: what reaches the peer's side of the pipe is exactly what the Write calls
+\* acknowledged (n is exact on error too: a failed Write has queued nothing)
+AckInv == \A e \in Ends : wpos[e] = acked[e]
 
-Inv == StreamInv /\ ReadInOrder /\ EofOnlyWhenDrained /\ ReadShape /\ WriteAfterCloseFails /\ WriteShape
+Inv == StreamInv /\ ReadInOrder /\ EofOnlyWhenDrained /\ ReadShape /\ WriteAfterCloseFails /\ WriteShape /\ AckInv
 =============================================================================
